@@ -13,7 +13,8 @@ RULE = ('Hypothesis-generated scripts biased to the cache-writing paths (WRITE_C
         'SIGN_STACK, DERIVE_SCALAR, DERIVE_POINT, both MAKE_ADAPTER ops, DECRYPT_ADAPTER_SIG) and to READ_CACHE_STACK / '
         'GET_VALUE, with key operands spelling every protected name in every encoding (utf-8, NUL-padded, upper-case, '
         'as ints), nested in all constructs, plus byte soup; initial caches = sigfield subsets + timestamp + 0-3 other '
-        'str keys with bytes / int / str / float / list values. Oracle: a recording dict flags any mutation whose key '
+        'str keys with bytes / bytearray / int / str / float / list values (sigfields are bytearrays in 1 of 8 draws); plus '
+        'a scale family: 1 .. 5000 writes to distinct keys (counts around 256 / 512 / 1024) x 4 key styles x 4 caches. Oracle: a recording dict flags any mutation whose key '
         'is not bytes, at any step incl. failed runs; afterwards '
         'every embedder entry equals its deep copy (value and type), also in the cache returned by run_script; '
         'GET_MESSAGE / CHECK_TIMESTAMP after the prefix give the fresh-cache result. non-trivial = a cache write whose '
@@ -72,7 +73,7 @@ def _msg(cache, flag):
     for i in range(1, 9):
         k = 'sigfield%d' % i
         if k in cache and not flag & (1 << (i - 1)):
-            out += cache[k]
+            out += bytes(cache[k])
     return out
 
 
@@ -135,10 +136,14 @@ def evaluate(script, emb):
             if info['outcome'] == 'ok' and not info['returned']:
                 for flag in (0, 0x05):
                     try:
-                        _, s3, _ = F.run_script(script + bytes([C['OP_GET_MESSAGE'], flag]), copy.deepcopy(emb))
+                        _, s3, c3 = F.run_script(script + bytes([C['OP_GET_MESSAGE'], flag]), copy.deepcopy(emb))
                         top = s3.list()[-1] if len(s3) else None
                         if top != _msg(before, flag):
                             fails.append(('consequence/message-changed', 'flag %02x: %r expected %r' % (flag, top, _msg(before, flag))))
+                        for k, v in before.items():
+                            if k not in c3 or not _typed_equal(c3[k], v):
+                                fails.append(('cache/embedder-value-changed-by-GET_MESSAGE', '%r: %r -> %r' % (k, v, c3.get(k))))
+                                break
                     except BaseException as e:  # noqa
                         if isinstance(e, (KeyboardInterrupt, SystemExit)):
                             raise
@@ -170,7 +175,7 @@ def check_case(case):
         raise ValueError('cache')
     for i in range(1, 9):
         k = 'sigfield%d' % i
-        if k in emb and not isinstance(emb[k], bytes):
+        if k in emb and not isinstance(emb[k], (bytes, bytearray)):
             raise ValueError('sigfields are bytes')
     script = R.encode(render.lower(case['prog'])) if 'prog' in case else case['script']
     return evaluate(script, emb)[0]
@@ -287,7 +292,7 @@ def cache_prog(depth=0, names=None):
     return _p()
 
 
-VALUES = st.one_of(st.binary(max_size=8), st.integers(-5, 2 ** 40), st.text(max_size=4), st.floats(allow_nan=False, width=32),
+VALUES = st.one_of(st.binary(max_size=8), st.binary(max_size=8).map(bytearray), st.integers(-5, 2 ** 40), st.text(max_size=4), st.floats(allow_nan=False, width=32),
                    st.lists(st.one_of(st.binary(max_size=4), st.integers(0, 9)), max_size=4),
                    st.lists(st.binary(max_size=4), min_size=1, max_size=4))
 
@@ -298,6 +303,9 @@ def emb_cache(draw):
     for i in range(1, 9):
         if draw(st.booleans()):
             c['sigfield%d' % i] = draw(st.binary(max_size=12))
+            if draw(st.integers(0, 7)) == 0:
+                # the embedder's own mutable buffer: concatenation and hashing accept it like bytes
+                c['sigfield%d' % i] = bytearray(c['sigfield%d' % i])
     c['timestamp'] = draw(st.one_of(st.just(1_700_000_000), st.integers(0, 2 ** 40)))
     for _ in range(draw(st.integers(0, 3))):
         c[draw(st.sampled_from(['E', 'P', 'x', 'IR', 'sa', 'custom', 'ünï', 'X', 's', 'returned', 'returned']))] = draw(VALUES)
@@ -356,7 +364,46 @@ def task_soup(ctx):
               ctx.n(12000, 500000), ctx.seed + 1)
 
 
+SCALE_N = [1, 2, 16, 100, 254, 255, 256, 257, 300, 511, 512, 513, 1023, 1024, 1025, 2000, 5000]
+SCALE_EMB = [{'timestamp': 1_700_000_000},
+             {'sigfield1': b'a', 'timestamp': 1_700_000_000},
+             dict({'sigfield%d' % i: bytes([i]) * 3 for i in range(1, 9)}, timestamp=1_700_000_000, custom=b'c', E=[b'e']),
+             dict({'k%d' % i: b'v' for i in range(40)}, sigfield2=b'two', timestamp=5)]
+
+
+def scale_script(n, style):
+    """n writes to n distinct byte-string keys (the key is a literal operand, so the writes are unrolled)."""
+    out = b''
+    for i in range(n):
+        key = i.to_bytes(2, 'big') if style == 0 else (b'%d' % i) if style == 1 else (b'k' + bytes([i % 256]) * (1 + i // 256))
+        if style == 3:
+            key = b'sigfield%d' % i
+        out += bytes([C['OP_PUSH0'], i % 256, C['OP_WRITE_CACHE'], len(key)]) + key + b'\x01'
+    return out
+
+
+def task_scale(ctx):
+    """However many distinct script registers a run creates, the embedder's entries stay: every count around powers of two
+    up to 5000 x key style x initial cache, written by one script."""
+    n = 0
+    cases = [(k, style, e) for k in SCALE_N for style in range(4) for e in range(len(SCALE_EMB))]
+    for i, (k, style, e) in enumerate(cases):
+        if i % ctx.nshards != ctx.shard:
+            continue
+        script = scale_script(k, style)
+        emb = copy.deepcopy(SCALE_EMB[e])
+        fails, info = evaluate(script, emb)
+        ctx.case(('scale', k, style, e), info.get('writes', 0) >= 3)
+        ctx.count('scale:writes>=256' if k >= 256 else 'scale:writes<256')
+        ctx.count('outcome:' + info.get('outcome', '?'))
+        for s_, d in fails:
+            ctx.fail('run', s_, {'check': 'run', 'script': script, 'cache': emb}, d)
+        n += 1
+    ctx.exhaustive['distinct-key write counts %r x 4 key styles x %d initial caches' % (SCALE_N, len(SCALE_EMB))] = n
+
+
 TASKS = {
+    'scale': (task_scale, 4, 8),
     'structured': (task_structured, 12, 16),
     'soup': (task_soup, 8, 16),
 }
